@@ -425,13 +425,28 @@ def probe_nested(ctx):
             leaf = MemoryStore() if rng.random() < 0.5 else FileStore(tmp)
             root = MountPointStore(MemoryStore())
             cur = root
+            parent = root
             for i, p in enumerate(prefixes):
                 nxt = leaf if i == depth - 1 else MountPointStore(MemoryStore() if rng.random() < 0.5 else None)
                 cur.mount(p, nxt)
-                cur = nxt
+                parent, cur = cur, nxt
             keys = rng.sample(["index.html", "d/f.txt", "q", "a/b/c", "web/x"], 3)
             for k in keys:
                 leaf.store(k, ("data of " + k).encode(), {})
+            if trial % 2:
+                parent.mount(prefixes[-1], leaf)      # the same store mounted again at the same key (a set-up function called twice)
+            # the key exactly AT each inner mount point is a directory of the composite that lists the next mount
+            for i in range(depth - 1):
+                at = "/".join(prefixes[:i + 1])
+                child = prefixes[i + 1].split("/")[0]
+                try:
+                    got = (root.is_dir(at), root.contains(at), child in (root.listdir(at) or []))
+                except Exception as ex:
+                    got = "raises %s" % type(ex).__name__
+                if got != (True, True, True):
+                    ctx.violation("mt:nested:at-mount-point:depth=%d" % depth,
+                                  "stores nested at %r (outermost first): at the mount point %r the root store gives (is_dir, contains, %r in listdir) = %r" % (prefixes, at, child, got),
+                                  dict(kind="nested", prefixes=prefixes, key=at))
             for k in keys:
                 rk = leaf.to_root_key(k)
                 cases.append((prefixes, k, rk))
